@@ -483,19 +483,14 @@ def r4(ctx):
     # guide[i] = old index of the i-th requested rank id
     newp = f.params[1]
     guide = None
-    for lp in f.own_nodes():
-        if isinstance(lp, ast.For) and text(lp.iter) == newp and \
-                isinstance(lp.target, ast.Name):
-            for c in _walk(lp.body):
-                if isinstance(c, ast.Call) and isinstance(c.func, ast.Attribute) and \
-                        c.func.attr == "append" and c.args and \
-                        isinstance(c.args[0], ast.Call) and \
-                        isinstance(c.args[0].func, ast.Attribute) and \
-                        c.args[0].func.attr == "index" and \
-                        [text(a) for a in c.args[0].args] == [lp.target.id] and \
-                        pat.inline(ctx, f, c.args[0].func.value).replace(" ", "") == \
-                        "%s.getRankIds()" % f.params[0]:
-                    guide = text(c.func.value)
+    for name, (it, tg, elt, node) in pat.list_maps(f).items():
+        if text(it) == newp and isinstance(tg, ast.Name) and \
+                isinstance(elt, ast.Call) and isinstance(elt.func, ast.Attribute) and \
+                elt.func.attr == "index" and \
+                [text(a) for a in elt.args] == [tg.id] and not elt.keywords and \
+                pat.inline(ctx, f, elt.func.value).replace(" ", "") == \
+                "%s.getRankIds()" % f.params[0]:
+            guide = name
     keydef = None
     for n in f.own_nodes():
         if isinstance(n, ast.Assign) and isinstance(n.value, ast.Call) and \
@@ -558,9 +553,10 @@ def r4(ctx):
     _modify_root(ctx)
     n_ = 0
     for mname in ("updateCoords", "updatePayloads", "_mergeRanksHelper", "unflattenRanks"):
-        n_ += pat.check_unit_recursion(ctx, "C09.R4", ctx.method("Fiber", mname),
-                                       "depth / levels descent")
-    ctx.floor("C09.R4", n_, 5, "recursion steps of the rank transforms")
+        k = pat.check_unit_recursion(ctx, "C09.R4", ctx.method("Fiber", mname),
+                                     "depth / levels descent")
+        n_ += bool(k)
+    ctx.floor("C09.R4", n_, 4, "level-by-level recursive rank transforms")
     # Fiber.swapRanks
     f = ctx.method("Fiber", "swapRanks")
     fl = so = un = False
